@@ -215,9 +215,48 @@ func ruleC09EntryWritten(c *Ctx) {
 }
 
 // ruleC09DisplacedEntry: keys.Set(id, e) over an existing entry holding another key object must release it first.
+// displacedReleased: starting at the lookup `get` (keys.Get(id)), every path to an instruction satisfying target either
+// takes the not-found edge, takes the "same key object" edge (existing.key == <newKeyPath>), or passes Close of
+// existing.key. Returns a counter-example trace otherwise.
+func displacedReleased(get ssa.Instruction, newKeyPath string, target func(ssa.Instruction) bool) (bool, []ssa.Instruction) {
+	getV := get.(ssa.Value)
+	existingKey := fmt.Sprintf("X:%s#0.key", getV.Name())
+	okPath := fmt.Sprintf("X:%s#1", getV.Name())
+	found, tr := pathSearch(get, func(j ssa.Instruction) pathAction {
+		if target(j) {
+			return pathFound
+		}
+		if cc := callOf(j); cc != nil && methodNameOf(cc) == "Close" {
+			if rv := receiverOf(cc); rv != nil && accessPath(rv) == existingKey {
+				if _, isGo := j.(*ssa.Go); !isGo {
+					return pathStop
+				}
+			}
+		}
+		return pathContinue
+	}, func(from, to *ssa.BasicBlock) bool {
+		for _, fct := range edgeFacts(from, to) {
+			if accessPath(fct.V) == okPath && !fct.True {
+				return false // not found: nothing displaced
+			}
+			if b, ok := fct.V.(*ssa.BinOp); ok && (b.Op == token.EQL || b.Op == token.NEQ) {
+				x, y := accessPath(b.X), accessPath(b.Y)
+				if (x == existingKey && y == newKeyPath) || (y == existingKey && x == newKeyPath) {
+					if (b.Op == token.EQL) == fct.True {
+						return false // same key object: nothing to release
+					}
+				}
+			}
+		}
+		return true
+	})
+	return !found, tr
+}
+
+// ruleC09DisplacedEntry: keys.Set(id, e) over an existing entry holding another key object must release it first.
 func ruleC09DisplacedEntry(c *Ctx) {
 	u := c.U1
-	c.rule("C09.displaced-entry", "every keys.Set(id, e) in keyCache is preceded by keys.Get(id) on the same id whose found-edge closes the existing entry's key unless it is the same key object as e's", 1)
+	c.rule("C09.displaced-entry", "every keys.Set(id, e) in keyCache is preceded — in the same function or in a helper called with the same id and entry — by keys.Get(id) whose found-edge closes the existing entry's key unless it is the same key object as e's", 1)
 	for _, f := range u.RepoFuncs {
 		if f.Signature.Recv() == nil || namedTypeName(f.Signature.Recv().Type()) != "keyCache" {
 			continue
@@ -230,55 +269,68 @@ func ruleC09DisplacedEntry(c *Ctx) {
 			set := callOf(i)
 			construct := shortName(f) + "/keys.Set"
 			idPath := accessPath(set.Args[0])
-			newKeyPath := accessPath(set.Args[1]) + ".key"
-			// find dominating Get on the same id
+			entryPath := accessPath(set.Args[1])
+			// (a) lookup in this function
 			var get ssa.Instruction
 			allInstrs(f, func(j ssa.Instruction) {
 				if isKeysCall(j, "Get") && accessPath(callOf(j).Args[0]) == idPath && instrDominates(j, i) {
 					get = j
 				}
 			})
-			if get == nil {
-				c.bad(construct, u.ipos(i), "no lookup of the existing entry under the same id dominates the Set: a displaced entry's key can never be released")
+			if get != nil {
+				ok, tr := displacedReleased(get, entryPath+".key", func(j ssa.Instruction) bool { return j == i })
+				if ok {
+					c.ok(construct, u.ipos(i), "existing entry looked up under the same id; its key is closed on every path where it differs from the new entry's key")
+				} else {
+					c.bad(construct, u.ipos(i), "a path reaches keys.Set over an existing entry holding a different key object without closing that key (the cache's reference is lost)", u.tracePositions(tr)...)
+				}
 				return
 			}
-			getV := get.(ssa.Value)
-			existingKey := fmt.Sprintf("X:%s#0.key", getV.Name())
-			okPath := fmt.Sprintf("X:%s#1", getV.Name())
-			found, tr := pathSearch(get, func(j ssa.Instruction) pathAction {
-				if j == i {
-					return pathFound
+			// (b) a dominating call to a helper of the same type, given the same id and entry
+			handled := false
+			allInstrs(f, func(j ssa.Instruction) {
+				h := staticCallee(j)
+				if handled || h == nil || h.Blocks == nil || h.Signature.Recv() == nil || namedTypeName(h.Signature.Recv().Type()) != "keyCache" || !instrDominates(j, i) {
+					return
 				}
-				if cc := callOf(j); cc != nil && methodNameOf(cc) == "Close" {
-					if rv := receiverOf(cc); rv != nil && accessPath(rv) == existingKey {
-						if _, isGo := j.(*ssa.Go); !isGo {
-							return pathStop
-						}
+				if _, isCall := j.(*ssa.Call); !isCall {
+					return
+				}
+				args := callOf(j).Args
+				idIdx, eIdx := -1, -1
+				for k, a := range args {
+					if accessPath(a) == idPath {
+						idIdx = k
+					}
+					if accessPath(a) == entryPath {
+						eIdx = k
 					}
 				}
-				return pathContinue
-			}, func(from, to *ssa.BasicBlock) bool {
-				for _, fct := range edgeFacts(from, to) {
-					if accessPath(fct.V) == okPath && !fct.True {
-						return false // not found: nothing displaced
-					}
-					if b, ok := fct.V.(*ssa.BinOp); ok && (b.Op == token.EQL || b.Op == token.NEQ) {
-						x, y := accessPath(b.X), accessPath(b.Y)
-						if (x == existingKey && y == newKeyPath) || (y == existingKey && x == newKeyPath) {
-							same := (b.Op == token.EQL) == fct.True
-							if same {
-								return false // same key object: nothing to release
-							}
-						}
-					}
+				if idIdx < 0 || eIdx < 0 || idIdx >= len(h.Params) || eIdx >= len(h.Params) {
+					return
 				}
-				return true
+				var hget ssa.Instruction
+				allInstrs(h, func(k ssa.Instruction) {
+					if isKeysCall(k, "Get") && isParamNamed(callOf(k).Args[0], h, idIdx) {
+						hget = k
+					}
+				})
+				if hget == nil {
+					return
+				}
+				// the helper's lookup must be executed on every path of the helper
+				if okAll, _ := mustPass(h.Blocks[0], 0, func(k ssa.Instruction) bool { return k == hget }, nil); !okAll {
+					return
+				}
+				if ok, _ := displacedReleased(hget, "P:"+h.Params[eIdx].Name()+".key", isReturn); ok {
+					handled = true
+				}
 			})
-			if found {
-				c.bad(construct, u.ipos(i), "a path reaches keys.Set over an existing entry holding a different key object without closing that key (the cache's reference is lost)", u.tracePositions(tr)...)
-				return
+			if handled {
+				c.ok(construct, u.ipos(i), "a helper called with the same id and entry looks the existing entry up and closes its key where it differs")
+			} else {
+				c.bad(construct, u.ipos(i), "no lookup of the existing entry under the same id (here or in a helper given the same id and entry) dominates the Set: a displaced entry's key can never be released")
 			}
-			c.ok(construct, u.ipos(i), "existing entry looked up under the same id; its key is closed on every path where it differs from the new entry's key")
 		})
 	}
 }
